@@ -391,7 +391,7 @@ func (e *errAfterReader) Read(p []byte) (int, error) {
 	return n, err
 }
 
-var readerKinds = []string{"bytes.Reader", "bytes.Buffer", "strings.Reader", "closer", "iotest.OneByteReader", "iotest.HalfReader", "iotest.DataErrReader", "iotest.TimeoutReader", "failing after the data", "bufio.Reader(16)"}
+var readerKinds = []string{"bytes.Reader", "bytes.Buffer", "strings.Reader", "closer", "iotest.OneByteReader", "iotest.HalfReader", "iotest.DataErrReader", "iotest.TimeoutReader", "failing after the data", "failing together with the last data", "bufio.Reader(16)"}
 
 func mkReader(kind string, data []byte) (io.Reader, *closeCounter, error) {
 	switch kind {
@@ -412,6 +412,9 @@ func mkReader(kind string, data []byte) (io.Reader, *closeCounter, error) {
 		return iotest.TimeoutReader(bytes.NewReader(data)), nil, iotest.ErrTimeout
 	case "failing after the data":
 		return &errAfterReader{bytes.NewReader(data)}, nil, errRead
+	case "failing together with the last data":
+		// the last bytes and the (non-EOF) error come back from the same Read call, which io.Reader allows
+		return &errAfterReader{iotest.DataErrReader(bytes.NewReader(data))}, nil, errRead
 	case "bufio.Reader(16)":
 		return bufio.NewReaderSize(bytes.NewReader(data), 16), nil, nil
 	}
@@ -615,6 +618,7 @@ func runIOReader(t *T, op, kind string, data []byte, lines bool) {
 	// what the wrapped read function returns when called directly on the same kind of reader
 	var wantLines [][]byte
 	var wantErr error
+	handedOut := 0 // bytes the reader hands out before (or together with) its error, read the way the operator reads
 	if lines {
 		rr, _, _ := mkReader(kind, append([]byte{}, data...))
 		br := bufio.NewReader(rr)
@@ -633,7 +637,8 @@ func runIOReader(t *T, op, kind string, data []byte, lines bool) {
 		rr, _, _ := mkReader(kind, append([]byte{}, data...))
 		buf := make([]byte, 1024)
 		for i := 0; i < len(data)+10; i++ {
-			_, err := rr.Read(buf)
+			n, err := rr.Read(buf)
+			handedOut += n
 			if err != nil {
 				if err != io.EOF {
 					wantErr = err
@@ -699,7 +704,7 @@ func runIOReader(t *T, op, kind string, data []byte, lines bool) {
 	}
 	// a reader that fails in the middle: bufio.Reader.ReadLine hands out what it has and may swallow a
 	// transient error, so only the line-by-line comparison with ReadLine applies
-	transient := lines && (kind == "iotest.TimeoutReader" || kind == "failing after the data")
+	transient := lines && (kind == "iotest.TimeoutReader" || kind == "failing after the data" || kind == "failing together with the last data")
 	if transient {
 		if wantErr != nil && (last.Kind != rec.Error || !errAgrees(last.Err, wantErr)) {
 			t.fail(op, "differs-from-wrapped-function", fmt.Sprintf("%s: bufio.Reader.ReadLine ends with %q, the subscriber's last notification is %s", what, wantErr, short(last.String())))
@@ -728,6 +733,9 @@ func runIOReader(t *T, op, kind string, data []byte, lines bool) {
 	} else {
 		if !bytes.HasPrefix(wantConcat, concat) {
 			t.fail(op, "concatenation-differs-from-input", fmt.Sprintf("%s: the chunks delivered before the read error add up to %s, not a prefix of the input", what, short(strconv.Quote(string(concat)))))
+		}
+		if !lines && op == "stdio.NewIOReader" && bytes.HasPrefix(wantConcat, concat) && len(concat) != handedOut {
+			t.fail(op, "data-returned-together-with-error-dropped", fmt.Sprintf("%s: the reader handed out %d bytes before and together with its error, the chunks delivered before the Error notification add up to %d", what, handedOut, len(concat)))
 		}
 		if last.Kind != rec.Error || !errAgrees(last.Err, wantErr) {
 			t.fail(op, "differs-from-wrapped-function", fmt.Sprintf("%s: the reader fails with %q, the subscriber's last notification is %s", what, wantErr, short(last.String())))
